@@ -25,11 +25,12 @@ RULE_TEXT = ("one obligation per (operation, table cell): sink kind, channel obj
              "assertion dominance; distinct = distinct instance keys; non-trivial = the anchor function was found and read")
 
 
-# operations that act at most once per object: the only condition their emission may stand under is the object's own latch
+# functions that act at most once per object: the only path on which they report success without sending is the one
+# their own latch selects (function -> what the single condition of that path must mention)
 ONCE = {
-    'channel::Channel::close': ('unless(self.closed)',),
-    'consumer::Consumer::cancel': ('unless(std::cell::Cell::get(self.cancelled))', 'unless(std::cell::Cell::replace(self.cancelled, true))'),
-    'connection::Connection::close': ('case(std::option::Option::take(self.join_handle) ~ Some(_))',),
+    'channel::Channel::close_impl': 'self.closed',
+    'consumer::Consumer::cancel': 'self.cancelled',
+    'connection::Connection::close_impl': 'std::option::Option::take(self.join_handle)',
 }
 
 
@@ -48,6 +49,7 @@ def run(ctx):
     r121(ctx)
     r122(ctx)
     r123(ctx)
+    r124(ctx)
     completeness(ctx)
 
 
@@ -67,11 +69,6 @@ def r121(ctx):
                 continue
             em = wire[0]
             esite = ctx.site(em.ev.fn or fnp, em.ev.node)
-            cond = [x for g in em.ev.guards if g[2] != 'inline' for x in S.guard_strs(g)]
-            early = [S.show(e.term)[:80] for e in events if e.idx < em.ev.idx and e.kind == 'ret']
-            latch = ONCE.get(fnp, ())
-            r.check('%s:unconditional' % fnp, (not cond and not early) or (len(cond) == 1 and cond[0] in latch), esite, built={'under': cond, 'returns-before': early},
-                    expected='the method is emitted on every call, whatever the argument values', why='an operation that sometimes sends nothing does not do what its arguments say')
             r.eq('%s:sink' % fnp, em.sink, row['sink'], esite, why='wait mode (call waits for the reply, nowait does not)')
             r.eq('%s:on' % fnp, em.on, row['on'], esite, why="the method must travel on the object's own channel")
             r.eq('%s:method' % fnp, '%s%s' % (em.cls, em.method), '%s%s' % (row['cls'], row['method']), esite)
@@ -188,6 +185,50 @@ def r123(ctx):
         r.eq('ExchangeType::as_ref:names', got, want, ctx.site(fnp))
         r.check('ExchangeType::as_ref:custom', custom is not None and custom[1] is True and custom[0].endswith('Custom(_)'), ctx.site(fnp), built=custom,
                 expected='Custom(s) => s')
+
+
+def r124(ctx):
+    """No path of an operation (or of a function between it and the I/O loop handle) reports success without having sent."""
+    import paths as P
+    with ctx.rule('R12.4', 'every successful path of an operation sends: from the public entry down to the IoLoopHandle sinks no path returns Ok without the call that emits', floor=60) as r:
+        wire = set(W.SINK_PREFIX + n for n, kind in W.SINKS.items() if kind in ('call', 'nowait', 'get', 'consume', 'close0', 'content_header', 'content_body'))
+        rev = {}
+        for a, es in ctx.cg.edges.items():
+            for b in es:
+                rev.setdefault(b, set()).add(a)
+        reach, st = set(), list(wire)
+        while st:
+            f = st.pop()
+            if f in reach:
+                continue
+            reach.add(f)
+            st.extend(rev.get(f, ()))
+        ops = [x['fn'] for x in T.ROWS] + list(T.PUBLISH)
+        fwd = ctx.cg.reachable([o for o in ops if ctx.has_fn(o)])
+        chain = sorted(f for f in fwd if f in reach and f not in wire and '{closure' not in f and ctx.has_fn(f) and 'hir' in ctx.fn(f))
+        for f in chain:
+            site = ctx.site(f)
+            try:
+                rows = P.table(ctx, f)
+            except Exception as e:  # fail closed per function
+                r.bad('%s:readable' % f, site, why='cannot enumerate the paths: %s: %s' % (type(e).__name__, e))
+                continue
+            silent = []
+            for x in rows:
+                v = x.value_str()
+                if x.done == 'panic' or v.startswith('Err('):
+                    continue
+                if any(e.split('(')[0].split(' = ')[-1] in reach for e in x.effects if '(' in e):
+                    continue
+                silent.append(x)
+            latch = ONCE.get(f)
+            if latch is not None:
+                ok = len(silent) == 1 and len(silent[0].conds) == 1 and latch in str(silent[0].conds[0][0]) and silent[0].value_str() == 'Ok(())'
+                r.check('%s:once' % f, ok, site, built=[x.row() for x in silent], expected='exactly one silent path: the one selected by %s, returning Ok(())' % latch,
+                        why='an at-most-once operation may skip sending only when its own latch says it already did')
+            else:
+                r.check('%s:always-sends' % f, not silent, site, built=[x.row() for x in silent][:3], expected='every path that does not fail or panic contains the emitting call',
+                        why='an operation that sometimes reports success without sending does not do what its arguments say')
 
 
 def completeness(ctx):
